@@ -833,7 +833,7 @@ class Interp(object):
         t = type(v)
         if t is SymList:
             elems = v.elems
-            if all(p is vc.CT or vc.c_is_true(p) for p, _ in elems):
+            if self.natives.all_present_under(self, v, pc):
                 if len(elems) != n:
                     self.raise_exc(pc, ValueError("unpack: expected %d values, got %d" % (n, len(elems))))
                     return None
@@ -1161,6 +1161,15 @@ class Interp(object):
                 return raw
             # method of a real base class (e.g. Exception.__str__)
             return MethodRef(inst, getattr(raw, "__name__", "?"))
+        if isinstance(v, NativeHandler):
+            if inst is None:
+                return v
+            h = v
+
+            def bound(it, args, kwargs, pc, h=h, inst=inst):
+                return h.fn(it, [inst] + list(args), kwargs, pc)
+
+            return NativeHandler(bound, v.name)
         if isinstance(v, FuncVal):
             if v.kind == "classmethod":
                 return BoundMethod(v, cls)
@@ -1331,7 +1340,7 @@ class Interp(object):
                 return True
             if l is vc.F:
                 return False
-            return U([(l, True), (m.NOT(l), False)])
+            return U([(l, True), (m.NOT(l), False)], True)
         pairs = [
             (m.AND(l, r), True),
             (m.AND(l, m.NOT(r)), Pair(True, False)),
